@@ -486,6 +486,11 @@ func checkC05(c *Ctx) {
 	validateTracesF(c, "SpacingTraceMC", spacingTraceCfg, files, items, 12000, false, func(it traceItem, res *TLCResult) {
 		c.Fail(Finding{Sig: "spacing-lines-differ", Input: it.Key, What: rejectText(res) + ": " + truncate(string(it.Trace), 500), Replay: it.Replay})
 	})
+	// the spacing of a restored file lives in the line table of its token.File: one Restorer / FileRestorer
+	// used for several files, earlier results printed after later restores (Reuse.tla)
+	if !reuseCheck(c, reuseSources, reuseJudgeBytes, "c01reuse") {
+		return
+	}
 	c.Set("rule", "case = one sibling list (7 list kinds) with Before/After/Start/End per element printed by the real restorer; non-trivial = some EmptyLine spacing or decoration present; distinct by kind + assignment")
 }
 
